@@ -198,8 +198,15 @@ class Renderable(object):
 
                 # Write the file content
 
+                # With escape-high-chars the post-processing pass turns every
+                # character above 127 into a numeric reference; write them
+                # that way right now if the output encoding cannot hold them.
                 enc = child.config['files']['output-encoding']
-                with open(filename, 'w', encoding=enc) as f:
+                if child.config['files']['escape-high-chars']:
+                    errors = 'xmlcharrefreplace'
+                else:
+                    errors = 'strict'
+                with open(filename, 'w', encoding=enc, errors=errors) as f:
                     f.write(val)
 
                 status.info(' ] ')
